@@ -1,0 +1,45 @@
+//go:build verif
+// +build verif
+
+package nutsdb
+
+import (
+	"sync"
+	"unsafe"
+)
+
+// VerifObserver, when set, is called before every file mutation the library
+// performs (op is one of mkdir, create, truncate, write, sync, close, remove).
+// A non-nil return value is reported to the caller of the mutation as its
+// I/O error and the mutation itself is skipped.
+var VerifObserver func(op, path string, off int64, b []byte) error
+
+var (
+	vfsMu   sync.Mutex
+	vfsMaps = map[uintptr]string{}
+)
+
+func vfs(op, path string, off int64, b []byte) error {
+	if VerifObserver != nil {
+		return VerifObserver(op, path, off, b)
+	}
+	return nil
+}
+
+func vfsMap(m []byte, path string) {
+	if len(m) == 0 {
+		return
+	}
+	vfsMu.Lock()
+	vfsMaps[uintptr(unsafe.Pointer(&m[0]))] = path
+	vfsMu.Unlock()
+}
+
+func vfsMapPath(m []byte) string {
+	if len(m) == 0 {
+		return ""
+	}
+	vfsMu.Lock()
+	defer vfsMu.Unlock()
+	return vfsMaps[uintptr(unsafe.Pointer(&m[0]))]
+}
